@@ -58,7 +58,8 @@ NoNode == 0
 Fresh(root, froot) ==
   [ pos |-> (DefaultFlow :> root), cur |-> DefaultFlow, pend |-> FALSE, home |-> root,
     froot |-> froot, last |-> NObs[root], acc |-> <<>>, memo |-> <<>>, multi |-> FALSE,
-    lost |-> FALSE, watch |-> {}, vm |-> <<>>, calls |-> <<>>, pmsgs |-> NObs[root].newmsgs ]
+    lost |-> FALSE, watch |-> {}, vm |-> <<>>, calls |-> <<>>, pmsgs |-> NObs[root].newmsgs,
+    warned |-> {} ]        \* the temporaries (numbers) a message seen by the host has complained about so far
 
 Here(s) == s.pos[s.cur]
 Alive(s) == DOMAIN s.pos
@@ -90,7 +91,8 @@ Track(s, e) ==
            ELSE s.watch
       c == [f \in DOMAIN e.ext |-> (IF f \in DOMAIN s.calls THEN s.calls[f] ELSE 0) + e.ext[f]] IN
   [s EXCEPT !.watch = w, !.vm = e.vm, !.calls = c @@ s.calls,
-            !.pmsgs = IF e.op = "cont" THEN <<>> ELSE s.pmsgs]
+            !.pmsgs = IF e.op = "cont" THEN <<>> ELSE s.pmsgs,
+            !.warned = s.warned \cup {e.wvars[i] : i \in DOMAIN e.wvars}]
 
 \* a rejected call: nothing changes (C09)
 RejectedF(s) == s
